@@ -899,6 +899,17 @@ impl Rasn {
                         None => s,
                     }
                 }
+                // The last supertype of a SEQUENCE or SET value is the struct itself, which is
+                // built by its `new`, not wrapped like the type references that lead to it
+                if let ASN1Value::LinkedStructLikeValue(_) = **value {
+                    let mut aliases = supertypes.clone();
+                    let own_name = aliases.pop().map(|s| self.to_rust_title_case(&s));
+                    return Ok(nester(
+                        self,
+                        self.value_to_tokens(value, own_name.as_ref().or(type_name))?,
+                        aliases,
+                    ));
+                }
                 Ok(nester(
                     self,
                     self.value_to_tokens(value, type_name)?,
